@@ -115,8 +115,8 @@ def print_assumptions(prop, thms, rundir):
             cur = m.group(1); res[cur] = []
             continue
         if cur is None: continue
-        m = re.match(r"^([A-Za-z_][A-Za-z0-9_.']*)\s*:", line)
-        if m and not line.startswith(" "):
+        m = re.match(r"^([A-Za-z_][A-Za-z0-9_.']*)\s*(:|$)", line)
+        if m and not line.startswith(" ") and m.group(1) not in ("Axioms", "Closed"):
             res[cur].append(m.group(1))
     return res, out
 
